@@ -21,6 +21,7 @@ type vfEmsgObs struct {
 
 func TestVerifC13(t *testing.T) {
 	r := rep.New("C13")
+	reask := &vfReask{}
 	r.Rule("case = (asset, events per minute N, MPD type/start, stretch of consecutive video segments); the event log of a stretch is checked offline: every scheduled (minute, offset) whose announce instant " +
 		"(splice - 7 s) lies inside the stretch is carried by exactly one segment, whose interval contains that instant; class = (asset, N, stretch kind, minute offset, position of the announce instant in the carrying segment {start,inside,end}); counted per scheduled event judged")
 	r.Assume("minutes and offsets are counted on the media timeline (relative to availabilityStartTime), which is wall-clock aligned for the driven start times (multiples of 60 s) and also driven for one unaligned start")
@@ -93,6 +94,7 @@ func TestVerifC13(t *testing.T) {
 					}
 					full := vfURL(cfg, w.Ref.Path, u, nowMS)
 					resp := vfGet(w.Srv, full)
+					reask.add(w.Srv, full, resp)
 					r.Eval(1)
 					if resp.Code != 200 {
 						r.Violation(fmt.Sprintf("video-segment-status-%d", resp.Code), map[string]any{"url": full, "body": vfTrunc(resp.Body, 100)})
@@ -309,6 +311,7 @@ func TestVerifC13(t *testing.T) {
 			}
 		}
 	}
+	vfReaskAtOnce(r, reask, "segments-with-events")
 	if r.NViolations() > 0 {
 		t.Fail()
 	}
